@@ -311,10 +311,13 @@ def refMap (curve : String) (u : List Nat) : Option Curves.Pt := do
 def combine (C : Curves.Params) (hEff : Nat) (q0 q1 : Curves.Pt) : Curves.Pt :=
   Curves.smul C hEff (Curves.add C q0 q1)
 
+/-- curve25519 hashes with the edwards25519 map (only its default DST differs) -/
+def modelCurve (curve : String) : String := if curve == "curve25519" then "ed25519" else curve
+
 /-- `u = hash_to_field(msg, 2)` of the suite: two elements, each a list of `m` components -/
 def h2cFieldElems (curve : String) (dst msg : ByteArray) : Option (List (List Nat)) := do
   let G ← genSuite? curve
-  let C ← Curves.byName? curve
+  let C ← Curves.byName? (modelCurve curve)
   let X ← xmdByName? G.expander
   hashToFieldM (expandXmd X) C.p G.m G.L 2 dst msg
 
